@@ -28,6 +28,7 @@ def run(ctx: Ctx):
     assembly(ctx)
     non_interference(ctx)
     coordinate_typing(ctx)
+    display_reductions(ctx)
     pairing(ctx)
     index_space_zip(ctx)
     display_translation(ctx)
@@ -214,6 +215,68 @@ def coordinate_typing(ctx: Ctx):
     ctx.require_min("display-typed properties", 100)
 
 
+METHOD_REDUCERS = {"sum", "mean", "prod", "max", "min", "cumsum"}
+
+
+def display_reductions(ctx: Ctx):
+    """A sum / mean / extreme taken over an ASSEMBLED array ranges over the displayed elements only: hidden and pruned ones
+    are missing from it and every inserted subtotal is counted on top of its addends.  Applies to the partition classes
+    (`self.X`) and to the classes that compute from a partition (`self._slice.X`, also through a local alias)."""
+    from ..stmts import resolver
+
+    sl = ctx.repo.cls(CP, "_Slice")
+    st = ctx.repo.cls(CP, "_Strand")
+    disp_slice = _display_props(ctx, sl)
+    targets = []  # (where, fn node, prefix, disp)
+    for ci, disp in ((sl, disp_slice), (st, _display_props(ctx, st))):
+        for c in ci.mro:
+            for name, m in c.members.items():
+                targets.append((f"{CP}::{ci.name}.{name}", m.node, "self.", disp))
+    PW = "measures/pairwise_significance.py"
+    for ci in ctx.repo.module(PW).classes.values():
+        for name, m in ci.members.items():
+            targets.append((f"{PW}::{ci.name}.{name}", m.node, "self._slice.", disp_slice))
+    n, seen = 0, set()
+    for where, fn, prefix, disp in targets:
+        if not isinstance(fn, (ast.FunctionDef,)):
+            continue
+        res = resolver(fn, multi=True)
+        for node in ast.walk(fn):
+            if not isinstance(node, ast.Call):
+                continue
+            f = u(node.func)
+            operands = None
+            if f in REDUCERS and node.args:
+                operands = [node.args[0]]
+            elif isinstance(node.func, ast.Attribute) and node.func.attr in METHOD_REDUCERS and not f.startswith("np."):
+                operands = [node.func.value]
+            if operands is None:
+                continue
+            n += 1
+            reads = set()
+            for a in operands:
+              for t in res(a):
+                for x in ast.walk(t):
+                    if isinstance(x, ast.Attribute) and u(x.value) + "." == prefix and x.attr in disp and x.attr not in ("_row_order_signed_indexes", "_column_order_signed_indexes", "_row_order_bogus_ids"):
+                        reads.add(prefix + x.attr)
+                    # `slice_ = self._slice` handed over as a parameter-free alias is resolved by `res`; a bare parameter named
+                    # slice_ (classmethod helpers) is the partition too
+                    if prefix != "self." and isinstance(x, ast.Attribute) and isinstance(x.value, ast.Name) and x.value.id == "slice_" and x.attr in disp:
+                        reads.add("slice_." + x.attr)
+            if reads and (where, tuple(sorted(reads))) not in seen:
+                seen.add((where, tuple(sorted(reads))))
+                ctx.violated(
+                    "display-reduction",
+                    where,
+                    f"{f}(...) over assembled value(s) {sorted(reads)}",
+                    "totals, counts and moments are taken from the base (pre-assembly) values",
+                    "a reduction over displayed elements leaves out hidden / pruned ones and counts inserted subtotals twice: the result changes when an element is hidden",
+                )
+    ctx.count("reduction sites in partition / pairwise code", n)
+    if not seen:
+        ctx.held("display-reduction", f"{CP} + {PW}: every sum / mean / extreme", f"{n} reduction sites, none ranges over an assembled array", "")
+
+
 def _array_space(e: ast.AST, disp: Set[str]) -> Optional[str]:
     """'D' display-ordered (assembled / order-derived), 'P' payload-ordered dimension sequence, None scalar / unknown."""
     if isinstance(e, ast.Attribute):
@@ -379,6 +442,10 @@ def pairing(ctx: Ctx):
 PAYLOAD_SEQ_ATTRS = {"subtotals", "valid_elements", "element_ids", "element_labels", "element_aliases", "subtotal_labels", "subtotal_aliases", "insertion_ids", "numeric_values", "all_elements"}
 
 
+# public outputs that are tuples of DISPLAY positions
+DISPLAY_POSITION_ATTRS = {"inserted_row_idxs", "inserted_column_idxs", "diff_row_idxs", "diff_column_idxs", "derived_row_idxs", "derived_column_idxs"}
+
+
 def index_space_zip(ctx: Ctx, only=None):
     """A sequence of display positions (or a display-ordered sequence) may not be paired position-wise
     (zip) with a payload-ordered dimension sequence, nor subscript one."""
@@ -389,6 +456,16 @@ def index_space_zip(ctx: Ctx, only=None):
             if only is not None and name not in only:
                 continue
             env: Dict[str, str] = {}
+            # parameters of a private helper take the space of the arguments at its call sites in the class
+            if name.startswith("_") and isinstance(m.node, (ast.FunctionDef,)):
+                params = [a.arg for a in m.node.args.args if a.arg not in ("self", "cls")]
+                for other in ci.members.values():
+                    for c in ast.walk(other.node):
+                        if isinstance(c, ast.Call) and isinstance(c.func, ast.Attribute) and c.func.attr == name and isinstance(c.func.value, ast.Name) and c.func.value.id in ("self", "cls"):
+                            for p_, a in zip(params, c.args):
+                                sp = _space(a, {})
+                                if sp:
+                                    env[p_] = sp
             # local assignments: name -> space
             for st in ast.walk(m.node):
                 if isinstance(st, ast.Assign) and len(st.targets) == 1 and isinstance(st.targets[0], ast.Name):
@@ -419,6 +496,8 @@ def _space(e: ast.AST, env: Dict[str, str]) -> Optional[str]:
     if isinstance(e, ast.Attribute):
         t = u(e)
         if t in (ROW_ORD, COL_ORD):
+            return "D"
+        if t.startswith("self.") and e.attr in DISPLAY_POSITION_ATTRS:
             return "D"
         if e.attr in PAYLOAD_SEQ_ATTRS:
             return "P"
